@@ -94,7 +94,8 @@ type World struct {
 	cbMask    int
 	slabLike  bool
 	refs      *RefTracker
-	lastRoot  []byte // bytes of the most recent root record (for adversarial values)
+	lastRoot  []byte   // bytes of the most recent root record (for adversarial values)
+	roots     [][]byte // every root record seen so far (older ones make the nastiest fragments)
 	nEvents   int
 	usePeek   bool
 	opTimeout time.Duration
@@ -102,6 +103,7 @@ type World struct {
 	prop      string         // property the running check is about: panics / hangs are attributed to it
 	dead      bool           // a panic / hang happened: the process is poisoned
 	viewBin   string         // tools/view binary (C09)
+	lastCopyDst *memfile.File // destination file of the most recent CopyTo
 	obsCtx    string         // property unlabelled observations are attributed to (C12: collection management must not disturb any handle)
 	scratch   string         // scratch file for the view tool
 }
@@ -654,6 +656,7 @@ func (w *World) Obs(h *StoreH, mode string, ctx ...string) bool {
 	}
 	if w.usePeek {
 		ev["reachfree"] = w.reachableFree()
+		ev["marked"] = w.reachableMarked(h)
 	}
 	ev["io"] = w.ioOf(h.File, false)
 	w.emit(ev)
@@ -698,6 +701,30 @@ func (w *World) reachableFree() int {
 	return bad
 }
 
+// reachableMarked counts cached nodes reachable from the handle's current
+// versions that carry a reclaim mark (diagnostic: between API calls the
+// current version's own tree carries none).
+func (w *World) reachableMarked(h *StoreH) int {
+	n := 0
+	var walk func(x *gkvlite.VerifNode)
+	walk = func(x *gkvlite.VerifNode) {
+		if x == nil || !x.Loaded || x.Cut {
+			return
+		}
+		if x.Mark != 0 {
+			n++
+		}
+		walk(x.Left)
+		walk(x.Right)
+	}
+	for _, name := range h.St.GetCollectionNames() {
+		if r := gkvlite.VerifPeek(h.St.GetCollection(name)); r != nil {
+			walk(r.Tree)
+		}
+	}
+	return n
+}
+
 func (w *World) storeIDs() []int {
 	ids := make([]int, 0, len(w.stores))
 	for id := range w.stores {
@@ -715,6 +742,7 @@ func (w *World) Decode(f *memfile.File) {
 	if d.Root != nil {
 		ev["rootend"] = d.Root.End
 		w.lastRoot = append([]byte{}, img[d.Root.Off:d.Root.End]...)
+		w.rememberRoot(w.lastRoot)
 		colls := []Ev{}
 		for _, name := range d.Root.Names {
 			items := []Ev{}
@@ -794,6 +822,33 @@ func (w *World) handOut(h *StoreH, c *gkvlite.Collection, i *gkvlite.Item) {
 }
 
 func (w *World) flushOut() { w.out.Flush() }
+
+func (w *World) rememberRoot(r []byte) {
+	if len(w.roots) == 0 || !bytes.Equal(w.roots[len(w.roots)-1], r) {
+		w.roots = append(w.roots, r)
+		if len(w.roots) > 12 {
+			w.roots = w.roots[1:]
+		}
+	}
+}
+
+// noteRoots remembers the newest root record of a file without logging a
+// Decode event.
+func (w *World) noteRoots(f *memfile.File) {
+	img := f.Bytes()
+	if r := decoder.LastRoot(img, int64(len(img))); r != nil {
+		w.lastRoot = append([]byte{}, img[r.Off:r.End]...)
+		w.rememberRoot(w.lastRoot)
+	}
+}
+
+// someRoot returns one of the root records seen so far, preferring older ones.
+func (w *World) someRoot() []byte {
+	if len(w.roots) == 0 {
+		return w.lastRoot
+	}
+	return w.roots[w.rng.Intn(len(w.roots))]
+}
 
 // ViewTool runs the repository's tools/view binary (names, items <first
 // collection>) on a read-only copy of the file's image and logs whether the
